@@ -72,7 +72,23 @@ func (w *World) SortOf(t types.Type) *Sort {
 		if u.Obj().Name() == "error" && u.Obj().Pkg() == nil {
 			return SErr
 		}
+		if pk := u.Obj().Pkg(); pk != nil && pk.Path() == "reflect" && u.Obj().Name() == "Kind" {
+			return SInt
+		}
 		if st, ok := u.Underlying().(*types.Struct); ok {
+			if pk := u.Obj().Pkg(); pk != nil && pk.Name() != "jmespath" && pk.Name() != "main" {
+				switch pk.Path() + "." + u.Obj().Name() {
+				case "bytes.Buffer":
+					return SStr // modelled by its contents
+				case "reflect.Value":
+					return w.rvSort()
+				}
+				n := "Opaque_" + pk.Name() + "_" + u.Obj().Name()
+				if _, ok := w.decls[n]; !ok {
+					w.addDecl(n, "(declare-sort "+n+" 0)")
+				}
+				return mkSort(n)
+			}
 			return w.structSort(u.Obj().Name(), u.Obj().Pkg(), st)
 		}
 		if _, ok := u.Underlying().(*types.Interface); ok {
@@ -128,6 +144,14 @@ func (w *World) SortOf(t types.Type) *Sort {
 		return SUnit
 	}
 	return mkSort("Unsupported")
+}
+
+// reflect.Value: the wrapped dynamic value plus validity / read-only (unexported) flags.
+func (w *World) rvSort() *Sort {
+	if _, ok := w.decls["RV"]; !ok {
+		w.addDecl("RV", "(declare-datatypes ((RV 0)) (((mkRV (rv_val Val) (rv_valid Bool) (rv_ro Bool)))))")
+	}
+	return mkSort("RV")
 }
 
 func (w *World) pintSort() *Sort {
